@@ -45,7 +45,7 @@ func ParseAssertStatement(node *sitter.Node, sourcecode []byte) *model.AssertStm
 
 func ParseReturnStatement(node *sitter.Node, sourcecode []byte) *model.ReturnStmt {
 	returnStmt := &model.ReturnStmt{}
-	if node.Child(1) != nil {
+	if node.Child(1) != nil && node.Child(1).IsNamed() {
 		returnStmt.Result = &model.Expr{NodeString: node.Child(1).Content(sourcecode)}
 	}
 	return returnStmt
